@@ -8,7 +8,7 @@ python3 uv/gen.py
 [ -f harness/Cargo.lock ] || cp /repo/Cargo.lock harness/Cargo.lock
 mkdir -p .work evidence replays
 # the native replayer must build for every property (a counterexample that cannot be replayed is inconclusive)
-for f in c01 c02 c03 c04 c05 c06 c07 c08 c09 c10 c11 c13 c14 c15 c16 c17 c18 c20; do
+for f in c01 c02 c03 c04 c05 c06 c07 c08 c09 c10 c11 c12 c13 c14 c15 c16 c17 c18 c20; do
   (cd harness && cargo build --offline --quiet --features $f --bin replay --target-dir ../.work/nt) || { echo "setup: replay build failed for $f"; exit 1; }
 done
 echo "setup ok"
